@@ -23,6 +23,7 @@ from ..engine import LVec
 from ..verdict import Result
 
 LEVEL = "exploration"
+AWKWARD_REGISTRATION_MIX = True
 RULE = ("finite lattice: (a) every operation x every coordinate signature x 4 flavor pairs on the object backend (exhaustive, "
         "two unrelated value sets each -> result system is a function of the signature); (b) every operation x backend pairing "
         "(object/NumPy/Awkward array/Awkward record, both orders) x flavor pairs x sampled (quick) or all (thorough) signatures; "
